@@ -677,6 +677,17 @@ func (fc *FnCtx) applyHint(s *State, env *Env, h *Hint, where string) {
 		bindIt()
 		return
 	}
+	if e.Name == "assume" {
+		// assume(e): taken on trust here, never proved; listed under the assumptions of every check that
+		// uses the function (for facts outside the modelled semantics, e.g. a float64 size estimate)
+		g := fc.evalSpecBool(env, e.Args[0])
+		if guard != nil {
+			g = mkImp(guard, g)
+		}
+		fc.usedAssumed[fmt.Sprintf("%s.assume[%s]: %s (assumed in the function body, not proved)", fc.key, h.Label, e.Args[0].String())] = true
+		s.assume(g)
+		return
+	}
 	if e.Name == "assert" {
 		// assert(e): prove e here, then use it (a cut)
 		g := fc.evalSpecBool(env, e.Args[0])
